@@ -39,7 +39,6 @@ from __future__ import annotations
 from antismash.common.secmet.features import (
     AntismashDomain,
     CDSFeature,
-    CDSMotif,
     Gene,
     Module,
     PFAMDomain,
